@@ -40,11 +40,13 @@ fn llr_json(got: f64, reference: f64) -> serde_json::Value {
 
 fn dem8(out: &mut Out, r: Complex<f64>, sigma: f64, kind: &str) {
     out.new_case();
-    let res = guarded(|| Psk8Demodulator::from_noise_sigma(sigma).demodulate(&[r]));
+    // both public constructors must give the exact posterior: the inherent `new` and the trait's `from_noise_sigma` (the one the BER engine uses)
+    let via_new = (r.re.to_bits() ^ r.im.to_bits() ^ sigma.to_bits()).count_ones() % 2 == 0;
+    let res = guarded(|| if via_new { Psk8Demodulator::new(sigma).demodulate(&[r]) } else { Psk8Demodulator::from_noise_sigma(sigma).demodulate(&[r]) });
     match res {
         Ok(g) if g.len() == 3 => {
             let (reference, scale) = posterior8(r, sigma);
-            out.ev("Dem8", "ok", json!({"kind": kind, "scale_cb": cb(scale.max(1e-300)), "llr": (0..3).map(|b| llr_json(g[b], reference[b])).collect::<Vec<_>>(),
+            out.ev("Dem8", "ok", json!({"kind": kind, "ctor": if via_new { "new" } else { "from_noise_sigma" }, "scale_cb": cb(scale.max(1e-300)), "llr": (0..3).map(|b| llr_json(g[b], reference[b])).collect::<Vec<_>>(),
                 "dbg": format!("r=({:e},{:e}) sigma={:e}", r.re, r.im, sigma)}));
         }
         Ok(g) => out.ev("Dem8", "badlen", json!({"len": g.len()})),
@@ -54,7 +56,8 @@ fn dem8(out: &mut Out, r: Complex<f64>, sigma: f64, kind: &str) {
 
 fn demb(out: &mut Out, r: f64, sigma: f64) {
     out.new_case();
-    match guarded(|| BpskDemodulator::from_noise_sigma(sigma).demodulate(&[r])) {
+    let via_new = (r.to_bits() ^ sigma.to_bits()).count_ones() % 2 == 0;
+    match guarded(|| if via_new { BpskDemodulator::new(sigma).demodulate(&[r]) } else { BpskDemodulator::from_noise_sigma(sigma).demodulate(&[r]) }) {
         Ok(g) if g.len() == 1 => {
             // points -1 (bit 0) and +1 (bit 1): LLR = ln(e^{-r/s2}/e^{r/s2}) = -2r/sigma^2
             let reference = -2.0 * r / (sigma * sigma);
@@ -138,7 +141,9 @@ pub fn generate(a: &Args) {
         }
     }
     // demodulators: polar grid, at / between points, decision boundaries, far away, sigma from 1e-2 to 1e2
-    let sigmas = [0.01, 0.05, 0.3, 1.0, 3.0, 100.0];
+    // "every positive noise level within floating range": also far below / above anything a simulation uses (the LLRs stay finite:
+    // |LLR| <~ 4 * 1000 / sigma^2 <= 4e27 for sigma = 1e-12)
+    let sigmas = [1e-12, 1e-9, 1e-6, 0.01, 0.05, 0.3, 1.0, 3.0, 100.0, 1e5, 1e9];
     let radii = [0.0, 1e-6, 0.5, 1.0, 2.0, 4.0, 50.0, 1000.0];
     let nang = if th { 128 } else { 16 };
     for &sg in &sigmas {
@@ -151,7 +156,7 @@ pub fn generate(a: &Args) {
         for &x in &[-1000.0, -50.0, -4.0, -1.0, -1e-9, 0.0, 1e-9, 0.3, 1.0, 4.0, 50.0, 1000.0] { demb(&mut out, x, sg); }
     }
     for _ in 0..(if th { 60000 } else { 500 }) {
-        let sg = 10f64.powf(rng.unit() * 4.0 - 2.0);
+        let sg = if rng.coin(1, 5) { 10f64.powf(rng.unit() * 24.0 - 12.0) } else { 10f64.powf(rng.unit() * 4.0 - 2.0) };
         let r = Complex::new(rng.gauss() * 1.5, rng.gauss() * 1.5);
         dem8(&mut out, r, sg, "random");
         demb(&mut out, rng.gauss() * 2.0, sg);
